@@ -41,7 +41,12 @@ def noWrap (env : Env) : CExpr → Bool
   | .bin op l r =>
     noWrap env l && noWrap env r &&
     (match eval env l, eval env r with
-     | some x, some y => binExact op x y
+     | some x, some y =>
+       -- only where C defines the operation (in particular: shift counts below the width), so that
+       -- `binExact` never builds 2^count for a huge count
+       match binop op x y with
+       | some _ => binExact op x y
+       | none => true
      | _, _ => true)
 
 end CffiVerif.CConstExpr
